@@ -15,16 +15,21 @@ import (
 
 // St is the graph state used by stateful plans.
 type St struct {
-	N     int      // number of handler / ProcessState invocations (commutative updates only)
-	Marks []string // who touched the state (order is schedule dependent, content is not)
-	Tag   string   // run tag of the run that generated this state
-	ID    int      // identity given by the generator function
+	N     int                       // number of handler / ProcessState invocations (commutative updates only)
+	Marks []string                  // who touched the state (order is schedule dependent, content is not)
+	Tag   string                    // run tag of the run that generated this state
+	ID    int                       // identity given by the generator function
 	Saved map[string]map[string]any // inputs saved by the pre-handlers of nodes that may ask for a re-run
 }
+
+// nilTok: a typed nil *nilTok travels in some inputs (a nil pointer in an interface-typed slot
+// is not the same thing as no value, also after a checkpoint round trip).
+type nilTok struct{ X int }
 
 func init() {
 	_ = compose.RegisterSerializableType[St]("verif_state")
 	_ = compose.RegisterSerializableType[map[string]any]("verif_map")
+	_ = compose.RegisterSerializableType[nilTok]("verif_niltok")
 }
 
 type lopt struct{ Tag string }
@@ -69,26 +74,26 @@ type ExecRec struct {
 
 // Env is the harness memory of one simulated history. Only the released task touches it.
 type Env struct {
-	S          *kernel.Sim
-	seq        int
-	Execs      []*ExecRec
-	branchEval map[string]int
-	execCount  map[string]int // tag|path -> started executions
-	doneCount  map[string]int // tag|path -> completed (not aborted) executions
-	prodN      int
-	States     []*St
-	StatePath  map[*St]string
-	CritCount  map[*St]int // entries into the critical section per state object
-	CurCall    int
-	LastState  map[string]*St // graph path -> state object last seen there
+	S            *kernel.Sim
+	seq          int
+	Execs        []*ExecRec
+	branchEval   map[string]int
+	execCount    map[string]int // tag|path -> started executions
+	doneCount    map[string]int // tag|path -> completed (not aborted) executions
+	prodN        int
+	States       []*St
+	StatePath    map[*St]string
+	CritCount    map[*St]int // entries into the critical section per state object
+	CurCall      int
+	LastState    map[string]*St // graph path -> state object last seen there
 	StateLineage map[*St]string
-	abortedLast map[string]bool // tag|path -> the last attempt asked for a re-run
-	ScriptOffset map[string]int // run tag -> offset into the branch scripts (concurrent callers decide differently)
-	inCrit     map[*St]string // mutual exclusion monitor
-	Problems   []Problem
-	Faults     map[string]int
-	Probes     map[string]int
-	HandlerLog []string
+	abortedLast  map[string]bool // tag|path -> the last attempt asked for a re-run
+	ScriptOffset map[string]int  // run tag -> offset into the branch scripts (concurrent callers decide differently)
+	inCrit       map[*St]string  // mutual exclusion monitor
+	Problems     []Problem
+	Faults       map[string]int
+	Probes       map[string]int
+	HandlerLog   []string
 	// SeenOpt records lambda options seen by node bodies: tag|path -> option tags
 	Callbacks *CBLog
 }
